@@ -1,119 +1,12 @@
-import Litep2pVerif.Model.Wire.Protobuf
+import Litep2pVerif.Generated.Schemas
 /-!
 # The protobuf messages litep2p decodes from the network (prost-generated structs)
 
-One structure + `mergeField` per message, transcribed from the `.proto` files
-(src/protocol/libp2p/schema/{kademlia,identify,bitswap}.proto, src/schema/{keys,noise}.proto) with
-prost's rules: scalar/optional fields — last occurrence wins; repeated — appended; optional message
-fields — merged into the existing value; unknown tags — skipped; known tag with another wire
-type — error. `decodeX depth bytes` is `X::decode` (depth = remaining recursion budget).
+The structures, decoders and encoders are GENERATED from the `.proto` files of /repo by
+`tools/proto2lean.py` on every run (`Generated/Schemas.lean`); this file only adds what is hand-written
+Rust on top of them.
 -/
 namespace Litep2pVerif.Wire
-
-/-! ## kademlia.proto -/
-
-structure KRecord where
-  key : List Nat := []
-  value : List Nat := []
-  timeReceived : List Nat := []
-  publisher : List Nat := []
-  ttl : Nat := 0
-  deriving Repr, DecidableEq
-
-def KRecord.merge (depth : Nat) (r : KRecord) (tag wt : Nat) (bs : List Nat) : Option (KRecord × List Nat) :=
-  match tag with
-  | 1 => (fieldBytes wt bs).map fun (v, rest) => ({ r with key := v }, rest)
-  | 2 => (fieldBytes wt bs).map fun (v, rest) => ({ r with value := v }, rest)
-  | 5 => (fieldString wt bs).map fun (v, rest) => ({ r with timeReceived := v }, rest)
-  | 666 => (fieldBytes wt bs).map fun (v, rest) => ({ r with publisher := v }, rest)
-  | 777 => (fieldVarint wt bs).map fun (v, rest) => ({ r with ttl := toU32 v }, rest)
-  | _ => fieldSkip r depth wt tag bs
-
-def KRecord.mergeFrom (init : KRecord) (depth : Nat) (bs : List Nat) : Option KRecord :=
-  decodeLoop (KRecord.merge depth) bs.length init bs
-
-structure KPeer where
-  id : List Nat := []
-  addrs : List (List Nat) := []
-  connection : Int := 0
-  deriving Repr, DecidableEq
-
-def KPeer.merge (depth : Nat) (p : KPeer) (tag wt : Nat) (bs : List Nat) : Option (KPeer × List Nat) :=
-  match tag with
-  | 1 => (fieldBytes wt bs).map fun (v, rest) => ({ p with id := v }, rest)
-  | 2 => (fieldBytes wt bs).map fun (v, rest) => ({ p with addrs := p.addrs ++ [v] }, rest)
-  | 3 => (fieldVarint wt bs).map fun (v, rest) => ({ p with connection := toI32 v }, rest)
-  | _ => fieldSkip p depth wt tag bs
-
-def KPeer.decode (depth : Nat) (bs : List Nat) : Option KPeer :=
-  decodeLoop (KPeer.merge depth) bs.length {} bs
-
-structure KMessage where
-  type : Int := 0
-  clusterLevelRaw : Int := 0
-  key : List Nat := []
-  record : Option KRecord := none
-  closerPeers : List KPeer := []
-  providerPeers : List KPeer := []
-  deriving Repr, DecidableEq
-
-def KMessage.merge (depth : Nat) (m : KMessage) (tag wt : Nat) (bs : List Nat) : Option (KMessage × List Nat) :=
-  match tag with
-  | 1 => (fieldVarint wt bs).map fun (v, rest) => ({ m with type := toI32 v }, rest)
-  | 10 => (fieldVarint wt bs).map fun (v, rest) => ({ m with clusterLevelRaw := toI32 v }, rest)
-  | 2 => (fieldBytes wt bs).map fun (v, rest) => ({ m with key := v }, rest)
-  | 3 => (fieldMessage (KRecord.mergeFrom (m.record.getD {})) depth wt bs).map
-      fun (v, rest) => ({ m with record := some v }, rest)
-  | 8 => (fieldMessage KPeer.decode depth wt bs).map
-      fun (v, rest) => ({ m with closerPeers := m.closerPeers ++ [v] }, rest)
-  | 9 => (fieldMessage KPeer.decode depth wt bs).map
-      fun (v, rest) => ({ m with providerPeers := m.providerPeers ++ [v] }, rest)
-  | _ => fieldSkip m depth wt tag bs
-
-/-- `schema::kademlia::Message::decode`. -/
-def KMessage.decode (bs : List Nat) : Option KMessage :=
-  decodeLoop (KMessage.merge recursionLimit) bs.length {} bs
-
-/-! ## identify.proto (proto2) -/
-
-structure Identify where
-  protocolVersion : Option (List Nat) := none
-  agentVersion : Option (List Nat) := none
-  publicKey : Option (List Nat) := none
-  listenAddrs : List (List Nat) := []
-  observedAddr : Option (List Nat) := none
-  protocols : List (List Nat) := []
-  deriving Repr, DecidableEq
-
-def Identify.merge (depth : Nat) (m : Identify) (tag wt : Nat) (bs : List Nat) : Option (Identify × List Nat) :=
-  match tag with
-  | 5 => (fieldString wt bs).map fun (v, rest) => ({ m with protocolVersion := some v }, rest)
-  | 6 => (fieldString wt bs).map fun (v, rest) => ({ m with agentVersion := some v }, rest)
-  | 1 => (fieldBytes wt bs).map fun (v, rest) => ({ m with publicKey := some v }, rest)
-  | 2 => (fieldBytes wt bs).map fun (v, rest) => ({ m with listenAddrs := m.listenAddrs ++ [v] }, rest)
-  | 4 => (fieldBytes wt bs).map fun (v, rest) => ({ m with observedAddr := some v }, rest)
-  | 3 => (fieldString wt bs).map fun (v, rest) => ({ m with protocols := m.protocols ++ [v] }, rest)
-  | _ => fieldSkip m depth wt tag bs
-
-def Identify.decode (bs : List Nat) : Option Identify :=
-  decodeLoop (Identify.merge recursionLimit) bs.length {} bs
-
-/-! ## keys.proto (proto2; prost does not enforce `required`) -/
-
-structure PublicKeyPb where
-  type : Int := 0
-  data : List Nat := []
-  deriving Repr, DecidableEq
-
-def PublicKeyPb.merge (depth : Nat) (m : PublicKeyPb) (tag wt : Nat) (bs : List Nat) :
-    Option (PublicKeyPb × List Nat) :=
-  match tag with
-  | 1 => (fieldVarint wt bs).map fun (v, rest) => ({ m with type := toI32 v }, rest)
-  | 2 => (fieldBytes wt bs).map fun (v, rest) => ({ m with data := v }, rest)
-  | _ => fieldSkip m depth wt tag bs
-
-def PublicKeyPb.decode (bs : List Nat) : Option PublicKeyPb :=
-  decodeLoop (PublicKeyPb.merge recursionLimit) bs.length {} bs
 
 /-- `RemotePublicKey::from_protobuf_encoding` without the `rsa` feature: only Ed25519 (type 1) with
 exactly 32 key bytes. The curve-point validity check of ed25519-dalek is a parameter. -/
@@ -131,129 +24,5 @@ def remotePublicKey (validPoint : List Nat → Bool) (bs : List Nat) : KeyResult
     if pk.type = 1 then
       (if pk.data.length = 32 ∧ validPoint pk.data then .ok pk.data else .invalidData)
     else .unknownKeyType
-
-/-! ## noise.proto (proto2) -/
-
-structure NoiseExtensions where
-  webtransportCerthashes : List (List Nat) := []
-  streamMuxers : List (List Nat) := []
-  deriving Repr, DecidableEq
-
-def NoiseExtensions.merge (depth : Nat) (m : NoiseExtensions) (tag wt : Nat) (bs : List Nat) :
-    Option (NoiseExtensions × List Nat) :=
-  match tag with
-  | 1 => (fieldBytes wt bs).map fun (v, rest) => ({ m with webtransportCerthashes := m.webtransportCerthashes ++ [v] }, rest)
-  | 2 => (fieldString wt bs).map fun (v, rest) => ({ m with streamMuxers := m.streamMuxers ++ [v] }, rest)
-  | _ => fieldSkip m depth wt tag bs
-
-def NoiseExtensions.mergeFrom (init : NoiseExtensions) (depth : Nat) (bs : List Nat) : Option NoiseExtensions :=
-  decodeLoop (NoiseExtensions.merge depth) bs.length init bs
-
-structure NoisePayload where
-  identityKey : Option (List Nat) := none
-  identitySig : Option (List Nat) := none
-  extensions : Option NoiseExtensions := none
-  deriving Repr, DecidableEq
-
-def NoisePayload.merge (depth : Nat) (m : NoisePayload) (tag wt : Nat) (bs : List Nat) :
-    Option (NoisePayload × List Nat) :=
-  match tag with
-  | 1 => (fieldBytes wt bs).map fun (v, rest) => ({ m with identityKey := some v }, rest)
-  | 2 => (fieldBytes wt bs).map fun (v, rest) => ({ m with identitySig := some v }, rest)
-  | 4 => (fieldMessage (NoiseExtensions.mergeFrom (m.extensions.getD {})) depth wt bs).map
-      fun (v, rest) => ({ m with extensions := some v }, rest)
-  | _ => fieldSkip m depth wt tag bs
-
-def NoisePayload.decode (bs : List Nat) : Option NoisePayload :=
-  decodeLoop (NoisePayload.merge recursionLimit) bs.length {} bs
-
-/-! ## bitswap.proto -/
-
-structure BsEntry where
-  block : List Nat := []
-  priority : Int := 0
-  cancel : Bool := false
-  wantType : Int := 0
-  sendDontHave : Bool := false
-  deriving Repr, DecidableEq
-
-def BsEntry.merge (depth : Nat) (m : BsEntry) (tag wt : Nat) (bs : List Nat) : Option (BsEntry × List Nat) :=
-  match tag with
-  | 1 => (fieldBytes wt bs).map fun (v, rest) => ({ m with block := v }, rest)
-  | 2 => (fieldVarint wt bs).map fun (v, rest) => ({ m with priority := toI32 v }, rest)
-  | 3 => (fieldVarint wt bs).map fun (v, rest) => ({ m with cancel := v != 0 }, rest)
-  | 4 => (fieldVarint wt bs).map fun (v, rest) => ({ m with wantType := toI32 v }, rest)
-  | 5 => (fieldVarint wt bs).map fun (v, rest) => ({ m with sendDontHave := v != 0 }, rest)
-  | _ => fieldSkip m depth wt tag bs
-
-def BsEntry.decode (depth : Nat) (bs : List Nat) : Option BsEntry :=
-  decodeLoop (BsEntry.merge depth) bs.length {} bs
-
-structure BsWantlist where
-  entries : List BsEntry := []
-  full : Bool := false
-  deriving Repr, DecidableEq
-
-def BsWantlist.merge (depth : Nat) (m : BsWantlist) (tag wt : Nat) (bs : List Nat) :
-    Option (BsWantlist × List Nat) :=
-  match tag with
-  | 1 => (fieldMessage BsEntry.decode depth wt bs).map fun (v, rest) => ({ m with entries := m.entries ++ [v] }, rest)
-  | 2 => (fieldVarint wt bs).map fun (v, rest) => ({ m with full := v != 0 }, rest)
-  | _ => fieldSkip m depth wt tag bs
-
-def BsWantlist.mergeFrom (init : BsWantlist) (depth : Nat) (bs : List Nat) : Option BsWantlist :=
-  decodeLoop (BsWantlist.merge depth) bs.length init bs
-
-structure BsBlock where
-  pfx : List Nat := []
-  data : List Nat := []
-  deriving Repr, DecidableEq
-
-def BsBlock.merge (depth : Nat) (m : BsBlock) (tag wt : Nat) (bs : List Nat) : Option (BsBlock × List Nat) :=
-  match tag with
-  | 1 => (fieldBytes wt bs).map fun (v, rest) => ({ m with pfx := v }, rest)
-  | 2 => (fieldBytes wt bs).map fun (v, rest) => ({ m with data := v }, rest)
-  | _ => fieldSkip m depth wt tag bs
-
-def BsBlock.decode (depth : Nat) (bs : List Nat) : Option BsBlock :=
-  decodeLoop (BsBlock.merge depth) bs.length {} bs
-
-structure BsPresence where
-  cid : List Nat := []
-  type : Int := 0
-  deriving Repr, DecidableEq
-
-def BsPresence.merge (depth : Nat) (m : BsPresence) (tag wt : Nat) (bs : List Nat) :
-    Option (BsPresence × List Nat) :=
-  match tag with
-  | 1 => (fieldBytes wt bs).map fun (v, rest) => ({ m with cid := v }, rest)
-  | 2 => (fieldVarint wt bs).map fun (v, rest) => ({ m with type := toI32 v }, rest)
-  | _ => fieldSkip m depth wt tag bs
-
-def BsPresence.decode (depth : Nat) (bs : List Nat) : Option BsPresence :=
-  decodeLoop (BsPresence.merge depth) bs.length {} bs
-
-structure BsMessage where
-  wantlist : Option BsWantlist := none
-  blocks : List (List Nat) := []
-  payload : List BsBlock := []
-  blockPresences : List BsPresence := []
-  pendingBytes : Int := 0
-  deriving Repr, DecidableEq
-
-def BsMessage.merge (depth : Nat) (m : BsMessage) (tag wt : Nat) (bs : List Nat) :
-    Option (BsMessage × List Nat) :=
-  match tag with
-  | 1 => (fieldMessage (BsWantlist.mergeFrom (m.wantlist.getD {})) depth wt bs).map
-      fun (v, rest) => ({ m with wantlist := some v }, rest)
-  | 2 => (fieldBytes wt bs).map fun (v, rest) => ({ m with blocks := m.blocks ++ [v] }, rest)
-  | 3 => (fieldMessage BsBlock.decode depth wt bs).map fun (v, rest) => ({ m with payload := m.payload ++ [v] }, rest)
-  | 4 => (fieldMessage BsPresence.decode depth wt bs).map
-      fun (v, rest) => ({ m with blockPresences := m.blockPresences ++ [v] }, rest)
-  | 5 => (fieldVarint wt bs).map fun (v, rest) => ({ m with pendingBytes := toI32 v }, rest)
-  | _ => fieldSkip m depth wt tag bs
-
-def BsMessage.decode (bs : List Nat) : Option BsMessage :=
-  decodeLoop (BsMessage.merge recursionLimit) bs.length {} bs
 
 end Litep2pVerif.Wire
